@@ -6,6 +6,7 @@ bytes, `pieceOfVal`, `ustr`).
 -/
 import DTML.Render
 import DTML.Lemmas.Join
+import DTML.Lemmas.Ustr
 set_option linter.unusedVariables false
 namespace DTML.Props.C19
 open DTML.Render
@@ -314,5 +315,174 @@ example : encodingIs { utf8 := true } (some "utf-8".toList) ∧ encodingIs { utf
 -- and it says something: the default is not UTF-8
 open DTML.Lemmas.Join in
 example : ¬ encodingIs { utf8 := true } none := by decide
+
+/-! #### `ustr` and `_exception_str` as translated from the source on every run (DTML/GenUstr.lean)
+
+The generated definitions work on `GenUstr.PyV`: the values of the model plus the kinds it leaves out (classes, exception
+objects with any `args`, instances whose own `__str__` is an oracle `Lib.callStr`, objects whose `__str__` is None); the
+built-in `str()` of what has no text form in the model is the oracle `Lib.str`.  On the values of the model the
+translation is `pieceOfVal` / `ustr` (what `piece_of_*` and `ustr_spec` above are about); on every value it raises only
+where `Lemmas.Ustr.Misbehaves` says the value's own `__str__` (or the oracle `str()`) does. -/
+
+open DTML.GenUstr DTML.Lemmas.Ustr in
+/-- `_exception_str(exc)` of the source on exception objects: no args -> `''`, one -> `ustr` of it, several -> `str` of the
+tuple; without an `args` attribute -> `str(exc)` -/
+theorem gen_exception_str_args (lib : Lib) (u : PyV → Res PyV) (a b : PyV) (t : List PyV) (id : Nat) :
+    exceptionStrGen lib u (.excObj []) = .ok (.val (.str [])) ∧
+    exceptionStrGen lib u (.excObj [a]) = u a ∧
+    exceptionStrGen lib u (.excObj (a :: b :: t)) = strRes (lib.str (.tup (a :: b :: t))) ∧
+    exceptionStrGen lib u (.excBare id) = strRes (lib.str (.excBare id)) := by
+  refine ⟨?_, ?_, ?_, ?_⟩
+  · rfl
+  · rfl
+  · simp [exceptionStrGen, pyHasattr, pyAttr, andThen, pyTruth, pyLen, pyStr]
+    intro h; omega
+  · rfl
+
+open DTML.GenUstr DTML.Lemmas.Ustr in
+/-- **`_exception_str` of the source on an exception value of the model is its message** (given that `ustr` returns a
+text as it is - `gen_ustr_is_model` below) -/
+theorem gen_exception_str_is_model (lib : Lib) (u : PyV → Res PyV) (c m : Text)
+    (hu : u (.val (.str m)) = .ok (.val (.str m))) :
+    exceptionStrGen lib u (.val (.exc c m)) = .ok (.val (.str (ustr (.exc c m)))) := by
+  simp [exceptionStrGen, pyHasattr, pyAttr, andThen, pyTruth, pyLen, pyIndex, hu, ustr]
+
+open DTML.GenUstr DTML.Lemmas.Ustr in
+/-- **`ustr` of the source is `pieceOfVal` / `ustr` of the model**, on every value of the model -/
+theorem gen_ustr_is_model (lib : Lib) (fuel : Nat) (v : Val) :
+    ustrGen lib (fuel + 2) (.val v) = .ok (ofPiece (pieceOfVal v)) := by
+  cases v with
+  | exc c m => rfl
+  | bool b => cases b <;> rfl
+  | _ => rfl
+
+
+open DTML.GenUstr DTML.Lemmas.Ustr in
+/-- `ustr` of the source on the kinds of value the model leaves out: a class -> the built-in `str`; an exception object ->
+`_exception_str` (its one argument converted with the fuel that is left); `__str__ = None` -> the built-in `str`; a
+tuple -> its `__str__`, which is the built-in -/
+theorem gen_ustr_other_kinds (lib : Lib) (fuel : Nat) (n : Text) (args : List PyV) (id : Nat) :
+    ustrGen lib (fuel + 1) (.cls n) = strRes (lib.str (.cls n)) ∧
+    ustrGen lib (fuel + 1) (.excObj args) = exceptionStrGen lib (ustrGen lib fuel) (.excObj args) ∧
+    ustrGen lib (fuel + 1) (.excBare id) = exceptionStrGen lib (ustrGen lib fuel) (.excBare id) ∧
+    ustrGen lib (fuel + 1) (.noStr id) = strRes (lib.str (.noStr id)) := by
+  refine ⟨?_, ?_, ?_, ?_⟩
+  · simp [ustrGen, pyIsinstance, isinstance1, pyGetattr, pyStr]
+  · simp [ustrGen, pyIsinstance, isinstance1, pyGetattr]
+  · simp [ustrGen, pyIsinstance, isinstance1, pyGetattr]
+  · simp [ustrGen, pyIsinstance, isinstance1, pyGetattr, pyStr]
+
+open DTML.GenUstr DTML.Lemmas.Ustr in
+/-- … an instance with its own `__str__` -> what that returns if it is str or bytes, else ValueError; what it raises is
+passed on -/
+theorem gen_ustr_own_str (lib : Lib) (fuel : Nat) (id : Nat) :
+    ustrGen lib (fuel + 1) (.inst id) =
+      (match lib.callStr id with
+       | .ok r => if isStrOrBytes r then .ok r else .raise wrongType
+       | .raise e => .raise e
+       | .ret x => .ret x
+       | .oom => .oom) := by
+  rw [ustrGen]
+  have h1 : ∀ cs, pyIsinstance (PyV.inst id) cs = false := by
+    intro cs
+    induction cs with
+    | nil => rfl
+    | cons c t ih => cases c <;> simpa [pyIsinstance, isinstance1] using ih
+  have ga : pyGetattr (PyV.inst id) "__str__".toList none = some ⟨.inst id⟩ := rfl
+  have pc : pyCall lib (some ⟨.inst id⟩) = lib.callStr id := rfl
+  simp only [h1, ga, pc]
+  cases lib.callStr id <;> rfl
+
+open DTML.GenUstr DTML.Lemmas.Ustr in
+theorem gen_ustr_tuple (lib : Lib) (fuel : Nat) (xs : List PyV) :
+    ustrGen lib (fuel + 1) (.tup xs) = strRes (lib.str (.tup xs)) := by
+  rw [ustrGen]
+  have h1 : ∀ cs, pyIsinstance (PyV.tup xs) cs = false := by
+    intro cs
+    induction cs with
+    | nil => rfl
+    | cons c t ih => cases c <;> simpa [pyIsinstance, isinstance1] using ih
+  have ga : pyGetattr (PyV.tup xs) "__str__".toList none = some ⟨.tup xs⟩ := rfl
+  have pc : pyCall lib (some ⟨.tup xs⟩) = strRes (lib.str (.tup xs)) := rfl
+  simp only [h1, ga, pc]
+  cases hs : lib.str (.tup xs) <;> rfl
+
+open DTML.GenUstr DTML.Lemmas.Ustr in
+/-- **conversion raises only when the value's own `__str__` misbehaves** (the last clause of C19), over the translated
+function, for every value, oracle and fuel: whenever `ustr` of the source raises `e`, `Misbehaves lib v e` says where it
+comes from - in particular never on a value of the model -/
+theorem gen_ustr_raises_only (lib : Lib) (fuel : Nat) : ∀ (v : PyV) (e : Exc),
+    ustrGen lib fuel v = .raise e → Misbehaves lib v e := by
+  induction fuel with
+  | zero => intro v e h; simp [ustrGen] at h
+  | succ fuel ih =>
+    intro v e h
+    cases v with
+    | val w =>
+      cases fuel with
+      | zero =>
+        cases w <;> first | cases h | (rename_i b; cases b <;> cases h)
+      | succ f => rw [gen_ustr_is_model] at h; cases h
+    | cls n =>
+      rw [(gen_ustr_other_kinds lib fuel n [] 0).1] at h
+      exact .cls n e (strRes_raise _ _ h)
+    | noStr id =>
+      rw [(gen_ustr_other_kinds lib fuel [] [] id).2.2.2] at h
+      exact .none id e (strRes_raise _ _ h)
+    | tup xs =>
+      rw [gen_ustr_tuple] at h
+      exact .tup xs e (strRes_raise _ _ h)
+    | excBare id =>
+      rw [(gen_ustr_other_kinds lib fuel [] [] id).2.2.1, (gen_exception_str_args lib _ (.cls []) (.cls []) [] id).2.2.2] at h
+      exact .bare id e (strRes_raise _ _ h)
+    | inst id =>
+      rw [gen_ustr_own_str] at h
+      cases hc : lib.callStr id with
+      | ok r =>
+        rw [hc] at h
+        cases hr : isStrOrBytes r with
+        | true => simp [hr] at h
+        | false =>
+          simp only [hr, Bool.false_eq_true, if_false, Res.raise.injEq] at h
+          subst h
+          exact .wrong id r hc hr
+      | raise e' =>
+        rw [hc] at h
+        simp only [Res.raise.injEq] at h
+        subst h
+        exact .own id e' hc
+      | ret x => rw [hc] at h; cases h
+      | oom => rw [hc] at h; cases h
+    | excObj args =>
+      rw [(gen_ustr_other_kinds lib fuel [] args 0).2.1] at h
+      match args, h with
+      | [], h => rw [(gen_exception_str_args lib _ (.cls []) (.cls []) [] 0).1] at h; cases h
+      | [a], h =>
+        rw [(gen_exception_str_args lib _ a (.cls []) [] 0).2.1] at h
+        exact .arg a e (ih a e h)
+      | a :: b :: t, h =>
+        rw [(gen_exception_str_args lib _ a b t 0).2.2.1] at h
+        exact .args a b t e (strRes_raise _ _ h)
+
+
+open DTML.GenUstr DTML.Lemmas.Ustr in
+/-- … so no value of the model makes the conversion raise, whatever the oracles and the fuel -/
+theorem gen_ustr_model_value_never_raises (lib : Lib) (fuel : Nat) (v : Val) (e : Exc) :
+    ustrGen lib fuel (.val v) ≠ .raise e := fun h => by cases gen_ustr_raises_only lib fuel _ _ h
+
+/-! the oracles can be such that each way of raising happens, and such that none does -/
+open DTML.GenUstr DTML.Lemmas.Ustr in
+example : ustrGen ⟨fun _ => .ok (.val (.int 3)), fun _ => .ok []⟩ 1 (.inst 0) = .raise wrongType := rfl
+open DTML.GenUstr DTML.Lemmas.Ustr in
+example : ustrGen ⟨fun _ => .raise ⟨"ZeroDivisionError".toList, []⟩, fun _ => .ok []⟩ 5 (.excObj [.excObj [.inst 0]]) =
+    .raise ⟨"ZeroDivisionError".toList, []⟩ := rfl
+open DTML.GenUstr DTML.Lemmas.Ustr in
+example : ustrGen ⟨fun _ => .ok (.val (.bytes [104, 105])), fun _ => .ok []⟩ 5 (.excObj [.excObj [.inst 0]]) =
+    .ok (.val (.bytes [104, 105])) := rfl
+open DTML.GenUstr DTML.Lemmas.Ustr in
+example : ustrGen ⟨fun _ => .oom, fun _ => .ok "(1, 2)".toList⟩ 1 (.excObj [.val (.int 1), .val (.int 2)]) =
+    .ok (.val (.str "(1, 2)".toList)) := rfl
+open DTML.GenUstr DTML.Lemmas.Ustr in
+example : ustrGen ⟨fun _ => .oom, fun _ => .oom⟩ 1 (.excObj []) = .ok (.val (.str [])) := rfl
 
 end DTML.Props.C19
